@@ -356,6 +356,29 @@ func runC08Leave(run *Run, seed int64, sc c08Leave, rng *rand.Rand) (out []*c01R
 				}
 			}
 		}
+		// ... and crafted ones that are 'no newer than the departure' but differ in content (what a
+		// stale copy from before a metadata change looks like to the leaver itself)
+		xr := X.Record(X.Name)
+		if xr == nil {
+			for _, p := range peers {
+				if xr = p.Record(X.Name); xr != nil {
+					break
+				}
+			}
+		}
+		if xr != nil {
+			for _, inc := range []uint32{leaveInc, leaveInc - 1} {
+				if inc == 0 {
+					continue
+				}
+				m := Enc(TAlive, &WAlive{Incarnation: inc, Node: X.Name, Addr: xr.Addr, Port: xr.Port, Meta: []byte("stale-other-meta"), Vsn: DefaultVsn()})
+				for _, p := range c.Nodes {
+					if !p.Stopped {
+						c.Net.Inject(p.EP, peers[0].EP.Addr, m)
+					}
+				}
+			}
+		}
 		Settle(5 * time.Second)
 	}
 	check := func(when string) {
